@@ -1004,7 +1004,9 @@ def _run_beh_sync(sc: Scenario, tok: str, args: Any, kwargs: Any, depvals: Any, 
             loop._v_inflight -= 1
             loop.call_later(hold, _unpark)
 
-        if loop is not None and hasattr(loop, "_v_inflight"):
+        if getattr(sc, "closing", False):
+            pass  # the run is over (the harness is tearing the worker down): nothing to wait for
+        elif loop is not None and hasattr(loop, "_v_inflight"):
             loop.call_soon_threadsafe(_park)
             gate.wait(30)
         else:
@@ -1426,6 +1428,7 @@ def run_worker(spec: Dict[str, Any], real: bool = False) -> RunResult:
                 rr.outcome = "api-horizon"
             rr.R = loop.time() - T0
             sc.trace.add("listen_" + rr.outcome, err=rr.err)
+            sc.closing = True  # type: ignore[attr-defined]  (functions started from now on do not park their thread)
             for g in sc.keep:
                 if isinstance(g, threading.Event):
                     g.set()  # executor threads parked for virtual time: run_receiver_task joins its pool on exit
@@ -1436,12 +1439,16 @@ def run_worker(spec: Dict[str, Any], real: bool = False) -> RunResult:
                 pass
             return
         fmt_final = _set_wire_format(broker, None, fmt_default) if fmt_late else None
+        ctor_a: List[Any] = []
+        ctor_kw: Dict[str, Any] = {"broker": broker, "executor": None if cfg.get("no_executor") else executor,
+                                   "validate_params": cfg.get("validate", True), "max_async_tasks": cfg.get("A"),
+                                   "max_prefetch": cfg.get("P", 0)}
+        if cfg.get("ctor_positional"):
+            # the documented parameter order, used positionally: Receiver(broker, executor, validate_params, A, P, ...)
+            ctor_a = [ctor_kw.pop(k_) for k_ in ("broker", "executor", "validate_params", "max_async_tasks", "max_prefetch")]
         receiver = MonReceiver(
-            broker=broker,
-            executor=None if cfg.get("no_executor") else executor,
-            validate_params=cfg.get("validate", True),
-            max_async_tasks=cfg.get("A"),
-            max_prefetch=cfg.get("P", 0),
+            *ctor_a,
+            **ctor_kw,
             propagate_exceptions=cfg.get("propagate", True),
             run_startup=False,
             ack_type=ack,
@@ -1465,6 +1472,20 @@ def run_worker(spec: Dict[str, Any], real: bool = False) -> RunResult:
                 _twin.__module__ = "mon.worker_harness"
                 twin_b.register_task(_twin, task_name=tn)
             rr.twin = Receiver(broker=twin_b, run_startup=False, max_async_tasks=1)  # type: ignore[attr-defined]
+            if spec["twin_receiver"] == "busy":
+                # ... which is listening too, and busy with a task of its own that never ends
+                async def _twin_forever(tok: Any = None) -> None:
+                    await asyncio.get_running_loop().create_future()
+                _twin_forever.__module__ = "mon.worker_harness"
+                twin_b.register_task(_twin_forever, task_name="twin_forever")
+                one = twin_b.formatter.dumps(AsyncKicker("twin_forever", twin_b, {})._prepare_message()).message
+
+                async def _twin_listen() -> Any:
+                    yield one
+                    await asyncio.get_running_loop().create_future()
+                twin_b.listen = _twin_listen  # type: ignore[method-assign]
+                rr.twin_listen = asyncio.ensure_future(rr.twin.listen(asyncio.Event()))  # type: ignore[attr-defined]
+                sc.keep.append(rr.twin_listen)
         if late_backend:
             broker.with_result_backend(backend_obj)  # configured after the receiver object exists
         finish = asyncio.Event()
